@@ -1,0 +1,36 @@
+//go:build verif
+
+package p2p
+
+// Contracts for the deductive checks in /verif (read by /verif/govc; comment-only, no code).
+
+//@ import conn github.com/tendermint/tendermint/p2p/conn
+//@ import crypto github.com/tendermint/tendermint/crypto
+
+// ---- C16: a peer link is accepted only when the authenticated key is the identity that was dialed and the identity
+// the peer reports about itself.
+// ASSUMED: a node id is a deterministic function of the public key.
+//@ func PubKeyToID
+//@   trusted
+//@   purefn
+//@   assigns nothing
+//@ func upgradeSecretConn
+//@   trusted
+//@   assigns nothing
+//@ func handshake
+//@   trusted
+//@   assigns nothing
+//@ func MultiplexTransport.cleanup
+//@   trusted
+//@   assigns nothing
+//@ extern NodeInfo.ID
+//@   pure
+//@   assigns nothing
+//@ extern NodeInfo.Validate
+//@   assigns nothing
+//@ extern NodeInfo.CompatibleWith
+//@   assigns nothing
+//@ func MultiplexTransport.upgrade
+//@   ensures dialed: (err == nil && dialedAddr != nil) ==> PubKeyToID(secretConn.remPubKey) == dialedAddr.ID
+//@   ensures reported: err == nil ==> PubKeyToID(secretConn.remPubKey) == imethod(nodeInfo, ID)
+//@   ensures notself: err == nil ==> imethod(nodeInfo, ID) != imethod(mt.nodeInfo, ID)
